@@ -15,6 +15,7 @@ func main() {
 	tier := flag.String("tier", "quick", "quick | thorough")
 	worker := flag.Bool("worker", false, "worker mode (internal)")
 	replay := flag.String("replay", "", "replay artefact to re-execute")
+	procClient := flag.Bool("procclient", false, "child-process client of the C16 check (internal)")
 	trace := flag.String("trace", "", "debug: run one trace verbosely, e.g. \"put a S; merge; restart\"")
 	fsize := flag.Int64("fs", 130, "debug: DataFileSize for -trace")
 	iot := flag.Int("io", 0, "debug: FileIOType for -trace")
@@ -31,6 +32,10 @@ func main() {
 		os.Exit(130)
 	}()
 
+	if *procClient {
+		procClientMain()
+		return
+	}
 	if *trace != "" {
 		c := defaultCfg
 		c.FileSize, c.IO, c.Index = *fsize, byte(*iot), int8(*idx)
